@@ -7,6 +7,8 @@ pub mod contract;
 pub mod driver;
 pub mod print;
 pub mod gen;
+pub mod reg;
+pub mod iso;
 
 pub use lang::*;
 
